@@ -70,6 +70,18 @@ def fam_elementary(rec, rnd, thorough):
         rec.enc(t, v, "ip-enc")
 
 
+def fam_bits_cross(rec, rnd, thorough):
+    """C06: the same integer decoded as bit strings of different widths, one after the other (each width yields its own
+    number of bits whatever another width decoded before)."""
+    widths = [g.d_bits(1), g.d_bits(2), g.d_bits(4), g.d_bits(8), g.d_bits(2, "ENGUNIT")]
+    for val in [0, 1, 5, 0x80, 0xFF, rnd.randint(0, 255)]:
+        for order in (widths, list(reversed(widths))):
+            for t in order:
+                raw = val.to_bytes(t["w"], "little")
+                rec.dec(t, raw, "bits-cross-width")
+                rec.stream(t, raw, b"\x01", "bits-cross-width-stream")
+
+
 def fam_strings(rec, rnd, thorough):
     """C06/C07: every prefix width / character width, every length up to the 1-byte prefix limit."""
     t = g.d_str(1, 1)
@@ -240,8 +252,11 @@ def fam_failures(rec, rnd, thorough, n_types):
             rec.enc(t, v, "bad:" + label)
         rec.dec(t, b"", "empty-buffer")
         # truncations of valid encodings
-        for _ in range(2):
-            v = g.gen_value(t, rnd)
+        if t["k"] == "stringn" and not t.get("nested"):       # every character width, never the empty string
+            vals = [(g.text(rnd, rnd.randint(2, 9), {1: "ascii", 2: "bmp", 4: "astral"}[cw]), cw) for cw in (1, 2, 4)]
+        else:
+            vals = [g.gen_value(t, rnd) for _ in range(2)]
+        for v in vals:
             if t["k"] == "arr" and t["lk"] != "fixed" and len(v) == 0:
                 v = g.gen_value(t, rnd)
             typ = rec.typ(t)
